@@ -59,6 +59,33 @@ def volume_read_job(Job, cfg=CFG_NDEBUG, tier="quick"):
     return cat_job(Job, "volume_read_block", "h_volume_read_block", ["VolumeAccess_read_block"], cfg, tier=tier, cover=True)
 
 
+FILEIO_GROUP = ["safe_unsigned_multiply_ul", "FileView_read_block", "FilePresentedBlockwise_read_block"]
+
+
+def fio_job(Job, name, entry, enforce, cfg=CFG_NDEBUG, replace=(), tier="quick", cover=True, cbmc=(), timeout=900):
+    return Job("D_%s_%s" % (name, cfg[0]), "harness/dfs_fileio.c", entry, enforce=enforce, replace=list(replace),
+               defines=list(cfg[1]), extract=ext(FILEIO_GROUP), tier=tier, cover=cover, cbmc=list(cbmc), timeout=timeout)
+
+
+# (take, leave) pairs the view constructors can produce: interleaved .dsd/.ddd take = leave = S;
+# non-interleaved take = C*S (one whole side), leave = 0; MMB slots take = 800 (80x10), leave = 0
+GEOMETRIES = [(10, 10), (16, 16), (18, 18)] + [(c * s, 0) for c in (35, 40, 80) for s in (10, 16, 18)]
+
+
+def fileio_jobs(Job, cfg=CFG_NDEBUG, tier="quick"):
+    js = [fio_job(Job, "safe_mul", "h_safe_mul", ["safe_unsigned_multiply_ul"], cfg, tier=tier),
+          fio_job(Job, "blockwise_read_block", "h_blockwise", ["FilePresentedBlockwise_read_block"], cfg, tier=tier,
+                  cbmc=["--unwindset", "bytevec_copy.0:257", "--unwinding-assertions"])]
+    js[0].solver = "cvc5"
+    for i, (take, leave) in enumerate(GEOMETRIES):
+        j = Job("D_fileview_read_block_%d_%d_%s" % (take, leave, cfg[0]), "harness/dfs_fileio.c", "h_fileview",
+                enforce=["FileView_read_block"], replace=["safe_unsigned_multiply_ul"],
+                defines=list(cfg[1]) + ["VERIF_TAKE=%du" % take, "VERIF_LEAVE=%du" % leave],
+                extract=ext(FILEIO_GROUP), tier=(tier if i in (0, 1, 7) else "thorough"), cover=(i == 0))
+        js.append(j)
+    return js
+
+
 DFS_TRUSTED = [
     "engine/cxx2c.py: the verified text is the function body extracted from /repo on every run; rules fired and SHA-256 of the source range are in coverage.jobs[].extracted",
     "models/dfs_model.h: DataAccess::read_block as a deterministic partial function with a call log; std::function visitors as monitored calls; "
